@@ -173,7 +173,7 @@ pub static C02: SimpleProp = SimpleProp {
     id: "C02",
     level: "exploration",
     rule: "one evaluation = one decode of a reference-built LZMA2 stream (0-9 chunks, now and then 100-300 tiny ones: uncompressed with/without dictionary reset, LZMA with reset class none/state/state+props/all, property changes with lc+lp<=4, matches reaching into earlier chunks, 1-byte chunks, 64 KiB uncompressed, >1 MB unpacked; only sequences xz and the LZMA SDK accept) through lzma2_decompress, raw::Lzma2Decoder or wrapped in .xz, with benign short reads/writes; output compared online with the LZ model; non-trivial = non-empty output; distinct by (scenario, event log) hash",
-    runs_quick: 50_000,
+    runs_quick: 150_000,
     runs_thorough: 12_000_000,
     both_profiles: false,
     assumptions: &[
@@ -274,7 +274,7 @@ pub static C03: SimpleProp = SimpleProp {
     id: "C03",
     level: "exploration",
     rule: "one evaluation = one xz_decompress of a reference-built single-stream file: 0-6 blocks (now and then 127-200 tiny ones, so that the index record count needs two bytes), check None/CRC32/CRC64, optional size fields present/absent, block header padded up to the 1024-byte maximum, LZMA2 payloads of every shape (so block padding 0-3 and VLIs of 1-3 bytes occur), arbitrary LZMA2 dictionary-size property; benign short reads/writes; output compared online with the concatenated block models; non-trivial = non-empty output; distinct by (scenario, event log) hash",
-    runs_quick: 50_000,
+    runs_quick: 150_000,
     runs_thorough: 12_000_000,
     both_profiles: false,
     assumptions: &[
